@@ -89,6 +89,7 @@ type nodeWorld struct {
 	txCfg       client.TxConfig
 	fresh       int
 	puppet      common.Address
+	bhProbe     common.Address // a contract that stores BLOCKHASH(calldata[0:32]) in slot 0
 	nextProp    uint64
 	bigGas      bool
 	codeless    []common.Address
@@ -170,6 +171,13 @@ func newNodeWorld(seed int64) *nodeWorld {
 	govGen.Params.VotingPeriod = &vp
 	govGen.Params.MinDeposit = sdk.NewCoins(sdk.NewCoin(utils.BaseDenom, sdkmath.NewInt(1_000_000)))
 	gs[govtypes.ModuleName] = cdc.MustMarshalJSON(govGen)
+	// one world in two keeps only a few historical headers: BLOCKHASH of an older height is then the zero hash
+	if seed%2 == 0 {
+		var stGen stakingtypes.GenesisState
+		cdc.MustUnmarshalJSON(gs[stakingtypes.ModuleName], &stGen)
+		stGen.Params.HistoricalEntries = 3
+		gs[stakingtypes.ModuleName] = cdc.MustMarshalJSON(&stGen)
+	}
 	slGen := slashingtypes.DefaultGenesisState()
 	slGen.SigningInfos = []slashingtypes.SigningInfo{{Address: w.proposer.String(),
 		ValidatorSigningInfo: slashingtypes.NewValidatorSigningInfo(w.proposer, 0, 0, time.Unix(0, 0).UTC(), false, 0)}}
@@ -216,7 +224,11 @@ func canonTx(r abci.ResponseDeliverTx) string {
 
 func (w *nodeWorld) begin(a *app.Haqq, b nodeBlock) sdk.Context {
 	header := testutil.NewHeader(b.height, b.time, nodeChainID, w.proposer, a.LastCommitID().Hash, w.valSet.Hash())
-	a.BeginBlock(abci.RequestBeginBlock{Header: header, LastCommitInfo: abci.CommitInfo{Votes: []abci.VoteInfo{{
+	var hash []byte
+	if th, err := tmtypes.HeaderFromProto(&header); err == nil {
+		hash = th.Hash()
+	}
+	a.BeginBlock(abci.RequestBeginBlock{Hash: hash, Header: header, LastCommitInfo: abci.CommitInfo{Votes: []abci.VoteInfo{{
 		Validator: abci.Validator{Address: w.valSet.Validators[0].Address, Power: 1}, SignedLastBlock: true}}}})
 	return a.BaseApp.NewContext(false, header)
 }
@@ -349,6 +361,17 @@ func (w *nodeWorld) buildTxs(a *app.Haqq, ctx sdk.Context, tok string) [][]byte 
 	case "deploy":
 		w.puppet = crypto.CreateAddress(w.eth(ki(1)), a.EvmKeeper.GetNonce(ctx, w.eth(ki(1))))
 		return [][]byte{w.ethTx(a, ctx, ki(1), nil, nil, c07InitCode(puppetRuntime()), 1_500_000, 0)}
+	case "bhdeploy":
+		// PUSH1 0, CALLDATALOAD, BLOCKHASH, PUSH1 0, SSTORE, STOP
+		w.bhProbe = crypto.CreateAddress(w.eth(ki(1)), a.EvmKeeper.GetNonce(ctx, w.eth(ki(1))))
+		return [][]byte{w.ethTx(a, ctx, ki(1), nil, nil, c07InitCode([]byte{0x60, 0x00, 0x35, 0x40, 0x60, 0x00, 0x55, 0x00}), 300_000, 0)}
+	case "bhash":
+		// BLOCKHASH of the height `back` blocks before the block this transaction is built for
+		h := ctx.BlockHeight() - int64(vmIdx(f[2]))
+		if h < 0 {
+			h = 0
+		}
+		return [][]byte{w.ethTx(a, ctx, ki(1), &w.bhProbe, nil, common.BigToHash(big.NewInt(h)).Bytes(), 100_000, 0)}
 	case "fundpup":
 		return [][]byte{w.ethTx(a, ctx, ki(1), &w.puppet, mustBig(f[2]), nil, 100_000, 0)}
 	case "approve":
@@ -482,7 +505,7 @@ func nodeGen(r *rand.Rand, tier string, prop string) []Case {
 	var out []Case
 	for i := 0; i < n; i++ {
 		c := Case{fmt.Sprintf("world # seed=%d", r.Intn(1_000_000))}
-		c = append(c, "blk # dt=6 txs=deploy.0|eth.1.5")
+		c = append(c, "blk # dt=6 txs=deploy.0|eth.1.5|bhdeploy.1")
 		c = append(c, "blk # dt=6 txs=fundpup.0.1000000000000000|approve.1|approve.2|mdeleg.3.100000000000000000|mdeleg.1.100000000000000000|mdeleg.2.100000000000000000")
 		c = append(c, "blk # dt=6 txs=vest.4.5.6000000000000000000000|codeless.2")
 		var liqTo []int
@@ -570,7 +593,11 @@ func nodeGen(r *rand.Rand, tier string, prop string) []Case {
 						txs = append(txs, fmt.Sprintf("dao.%d.%d", k, 1+r.Intn(1_000_000)))
 					}
 				case x < 12:
-					txs = append(txs, fmt.Sprintf("wdr.%d", 3))
+					if r.Intn(2) == 0 {
+						txs = append(txs, fmt.Sprintf("bhash.%d.%d", k, pick(r, []int{0, 1, 2, 3, 4, 5, 8, 12, 300})))
+					} else {
+						txs = append(txs, fmt.Sprintf("wdr.%d", 3))
+					}
 				case x < 13:
 					txs = append(txs, fmt.Sprintf("pc.%d.%s", k, pick(r, []string{"bech32", "p256"})))
 				default:
@@ -765,12 +792,20 @@ func c01Exec(c Case) (outs []string, fails []Failure, tags []string) {
 	if run.w == nil || len(run.blocks) == 0 {
 		return
 	}
-	// a second, independently constructed replica (built after the first one has run), same genesis, same blocks
+	// a second, independently constructed replica (built after the first one has run), same genesis, same blocks —
+	// on a host in another time zone (the worlds start at New Year of a leap year, where the civil year of a block
+	// time differs between zones)
+	savedLocal := time.Local
+	time.Local = time.FixedZone("replica", -12*3600)
+	if run.w.seed%2 == 1 {
+		time.Local = time.FixedZone("replica", 14*3600)
+	}
 	b := nodeNewApp(dbm.NewMemDB())
 	run.w.initChain(b)
 	b.Commit()
 	got := run.w.replay(b, run.blocks)
-	tags = append(tags, "replica-compared")
+	time.Local = savedLocal
+	tags = append(tags, "replica-compared", "replica-in-other-time-zone")
 	if d := diffBlocks(run.results, got, 2); len(d) > 0 {
 		fails = append(fails, Failure{Signature: "C01:replicas-diverge", What: "two replicas fed the same blocks disagree:\n  " + strings.Join(d, "\n  "), Case: c})
 	}
